@@ -1971,7 +1971,7 @@ def run_select_case(env: Env, rec: Rec, case: dict, driver_reqs: list, pending: 
     rec.count("duplicate (function,id) registrations", dup_regs)
     rec.count("bound-method registrations", sum(1 for h in hs if h.get("_bound") is not None))
     rec.count("one function registered for several fields (ids by kopf)",
-              max([0] + [len({tuple(h["f"] or []) for h in hs if h["func"] == f_}) for f_ in {h["func"] for h in hs}]))
+              max([0] + [len({tuple(h["f"]) for h in hs if h["func"] == f_ and h["f"]}) for f_ in {h["func"] for h in hs}]))
     replay = {"kind": "select", "case": case, "impl": got_idx}
     # oracle: invoked once; exactly the handlers whose declared criteria (and cause kind) hold
     if len(set(got_keys)) != len(got_keys):
